@@ -50,6 +50,7 @@ uint64_t ev(int k, long a = 0, long b = 0) { auto s = vsim::event(k, a, b); samp
 void submit(long id, int flags, int yields);
 
 long body(long id, int flags, int yields) {
+  vsim::Unmonitored harness_code;   // the oracle's own tables are not the code under test (race variant)
   ev(E_BODY_BEGIN, id, vsim::self_id());
   S->started++;
   if (++S->body_runs[id] > 1) S->online.push_back("I1 task " + std::to_string(id) + " body started twice");
@@ -66,8 +67,8 @@ void submit(long id, int flags, int yields) {
   S->tasks.emplace_back(); TaskRec& r = S->tasks.back(); r.id = id; r.flags = flags; r.yields = yields;
   S->by_id[id] = &r;
   ev(E_SUBMIT_BEGIN, id, vsim::self_id());
-  if (flags & FL_VOID) r.fv = S->pool->addTask([id, flags, yields] { body(id, flags, yields); });
-  else r.fl = S->pool->addTask([id, flags, yields] { return body(id, flags, yields); });
+  if (flags & FL_VOID) { std::future<ThreadedTaskResult<void>> f; { vsim::Monitored m; f = S->pool->addTask([id, flags, yields] { body(id, flags, yields); }); } r.fv = std::move(f); }
+  else { std::future<ThreadedTaskResult<long>> f; { vsim::Monitored m; f = S->pool->addTask([id, flags, yields] { return body(id, flags, yields); }); } r.fl = std::move(f); }
   S->submitted++;
   r.sub_end_seq = ev(E_SUBMIT_END, id, vsim::self_id());
   r.submitted = true;
@@ -78,7 +79,7 @@ bool task_ready(TaskRec& r) { return (r.flags & FL_VOID) ? ready(r.fv) : ready(r
 
 void do_wait(int c) {
   auto wb = ev(E_WAIT_BEGIN, c);
-  S->pool->wait();
+  { vsim::Monitored m; S->pool->wait(); }
   ev(E_WAIT_END, c, long(wb));
   // I5 (readiness part): the future of every task submitted before wait() began is ready now
   for (auto& r : S->tasks)
@@ -86,6 +87,7 @@ void do_wait(int c) {
 }
 
 void client(int c, const hu::Plan* plan) {
+  vsim::Unmonitored harness_code;
   for (size_t i = 0; i < plan->ops.size(); ++i) {
     auto& op = plan->ops[i];
     if (op.size() < 4 || op[0] != c) continue;
@@ -159,7 +161,8 @@ struct H29 : hu::Harness {
     uint64_t destroy_begin = 0, destroy_end = 0;
     vsim::begin(cfg);
     {
-      auto pool = std::make_unique<ThreadPool>(size_t(nw));
+      std::unique_ptr<ThreadPool> pool;
+      { vsim::Monitored m; pool = std::make_unique<ThreadPool>(size_t(nw)); }
       st.pool = pool.get();
       std::vector<std::thread> cl;
       for (long c = 1; c < nc; ++c) cl.emplace_back(client, int(c), &plan);
@@ -168,7 +171,7 @@ struct H29 : hu::Harness {
       if (fw) do_wait(0);
       st.stopping = true;
       destroy_begin = ev(E_DESTROY_BEGIN);
-      pool.reset();
+      { vsim::Monitored m; pool.reset(); }
       destroy_end = ev(E_DESTROY_END);
       st.pool = nullptr;
     }
